@@ -989,6 +989,49 @@ class EntryOracles(WalkOracles):
         self.index_new = None
         self.contains_asked = []
 
+    # ---- the key set of the no-extensions entry point, semantically: two keys k0, k1 listed in the caller's order, whose true order is
+    # an oracle; ONE probe (a single-base neighbour of k0) is varied: absent from the key set, equal to k1, or equal to k0 itself (a
+    # homopolymer / hairpin); an absent probe sorts before, between or after the keys (oracle).  Every way of asking "is the neighbour a
+    # key?" — hash set, sorted vector + binary search, partition_point, linear scan — answers from this one model.
+    active = None
+    unsorted_search = None
+
+    def ident(self, v):
+        """('key', name) / ('absent', probe) / None"""
+        if isinstance(v, Tup) and v.fields:
+            v = v.fields[0]
+        if isinstance(v, Opaque) and kid(v):
+            return ("key", kid(v)[0])
+        if isinstance(v, Opaque) and "of" in v.info:
+            pr = (v.info.get("of"), v.info.get("side"), v.info.get("base"))
+            if self.active is not None and pr == ("k0",) + tuple(self.active):
+                st = self.choose("probe", ("absent", "is-k1", "is-k0"))
+                if st != "absent":
+                    return ("key", st[3:])
+            return ("absent", pr)
+        return None
+
+    def key_rank(self, name):
+        lt = self.choose("k0<k1", (True, False))
+        return (0 if lt else 1) if name == "k0" else (1 if lt else 0)
+
+    def cmp_ident(self, a, b):
+        if a is None or b is None:
+            return None
+        if a[0] == "key" and b[0] == "key":
+            return 0 if a[1] == b[1] else (-1 if self.key_rank(a[1]) < self.key_rank(b[1]) else 1)
+        if a[0] == "absent" and b[0] == "absent":
+            return 0 if a[1] == b[1] else None
+        if a[0] == "absent":
+            # before both keys / between / after both: an oracle for the varied probe, a fixed (but varied across probes) place for the others
+            if self.active is not None and a[1] == ("k0",) + tuple(self.active):
+                pos = self.choose("absent-sorts", (0, 1, 2))
+            else:
+                pos = (sum(x if isinstance(x, int) else len(str(x)) for x in a[1][1:]) + (0 if a[1][0] == "k0" else 1)) % 3
+            return -1 if pos <= self.key_rank(b[1]) else 1
+        c = self.cmp_ident(b, a)
+        return None if c is None else -c
+
     def on_call(self, it, fn, args, dest_ty, term, caller):
         p = fn.get("rpath") or fn.get("path", "")
         path = fn.get("path", "")
@@ -1000,6 +1043,71 @@ class EntryOracles(WalkOracles):
         if "BoomHashMap2" in path and name in ("new", "new_parallel"):
             self.index_new = args
             return Opaque("BoomHashMap2", {"built-index"})
+        if getattr(self, "mode", None) == "slice-noexts":
+            from .models import seq_of, call_callable
+            trn = tr.split("::")[-1].split("<")[0]
+            # comparisons between k-mers (keys / probes)
+            if name in ("cmp", "partial_cmp", "lt", "le", "gt", "ge", "eq", "ne") and trn in ("Ord", "PartialOrd", "PartialEq") and len(args) == 2:
+                c = self.cmp_ident(self.ident(recv(it, args[0])), self.ident(recv(it, args[1])))
+                if c is not None:
+                    if name == "cmp":
+                        return Adt("std::cmp::Ordering", c + 1, [])
+                    if name == "partial_cmp":
+                        return some(Adt("std::cmp::Ordering", c + 1, []))
+                    return mkbool({"lt": c < 0, "le": c <= 0, "gt": c > 0, "ge": c >= 0, "eq": c == 0, "ne": c != 0}[name])
+            # set membership, whatever the set type
+            if name == "contains" and len(args) == 2 and any(x in path for x in ("HashSet", "BTreeSet", "hash::set", "btree::set")):
+                k = recv(it, args[1])
+                self.contains_asked.append(dict(k.info) if isinstance(k, Opaque) else {})
+                i_ = self.ident(k)
+                if i_ is None:
+                    raise Undecided("membership of an unidentified k-mer")
+                return mkbool(i_[0] == "key")
+            if name == "len" and len(args) == 1 and any(x in path for x in ("HashSet", "BTreeSet", "hash::set", "btree::set")):
+                return Int(64, False, val=self.n_keys)
+            # ordered sequences of keys: sort / dedup / searches
+            if args and isinstance(args[0], Ref) and name in ("sort", "sort_unstable", "dedup", "binary_search", "binary_search_by_key", "contains",
+                                                              "sort_by_key", "sort_unstable_by_key", "dedup_by_key"):
+                sq = seq_of(it, args[0])
+                if sq is not None:
+                    v, off, cnt = sq
+                    el = list(v.elems[off:off + cnt])
+
+                    def keyf(e, ci):
+                        return self.ident(call_callable(it, args[ci], [Ref(Cell(e, "elt"))], term, caller, 0)) if ci is not None else self.ident(e)
+                    ci = {"sort_by_key": 1, "sort_unstable_by_key": 1, "dedup_by_key": 1, "binary_search_by_key": 2}.get(name)
+                    ids = [keyf(deref_val(it, e) if isinstance(e, Ref) and ci is None else e, ci) for e in el]
+                    if all(i_ is not None for i_ in ids) and (el or name.startswith("binary") or name == "contains"):
+                        import functools
+                        if name.startswith("sort"):
+                            order = sorted(range(len(el)), key=functools.cmp_to_key(lambda i, j: self.cmp_ident(ids[i], ids[j]) or 0))
+                            it.write(args[0].cell, args[0].path, type(v)(list(v.elems[:off]) + [el[i] for i in order] + list(v.elems[off + cnt:])))
+                            return Tup([])
+                        if name.startswith("dedup"):
+                            keep = [i for i in range(len(el)) if i == 0 or self.cmp_ident(ids[i], ids[i - 1]) != 0]
+                            it.write(args[0].cell, args[0].path, type(v)(list(v.elems[:off]) + [el[i] for i in keep] + list(v.elems[off + cnt:])))
+                            return Tup([])
+                        probe = recv(it, args[1])
+                        self.contains_asked.append(dict(probe.info) if isinstance(probe, Opaque) else {})
+                        pid = self.ident(probe)
+                        if pid is None:
+                            raise Undecided("search for an unidentified k-mer")
+                        cs = [self.cmp_ident(i_, pid) for i_ in ids]
+                        if name == "contains":
+                            return mkbool(any(c == 0 for c in cs))
+                        if any(self.cmp_ident(ids[i], ids[i + 1]) == 1 for i in range(len(ids) - 1)):
+                            # the library leaves the result of a binary search on an unsorted slice unspecified
+                            self.unsorted_search = [i_[1] for i_ in ids]
+                        lo_, hi_ = 0, len(el)
+                        while lo_ < hi_:
+                            mid = (lo_ + hi_) // 2
+                            if cs[mid] == 0:
+                                return Adt("std::result::Result", 0, [Int(64, False, val=mid)])
+                            if cs[mid] < 0:
+                                lo_ = mid + 1
+                            else:
+                                hi_ = mid
+                        return Adt("std::result::Result", 1, [Int(64, False, val=lo_)])
         if "HashSet" in path and name == "contains":
             k = recv(it, args[1])
             info = k.info if isinstance(k, Opaque) else {}
@@ -1041,10 +1149,13 @@ def entry_points_table(F, rep, rule):
         elem = F.ty(F.ty(t3.get("t", "")).get("t", "")) if t3.get("k") == "ref" else {}
         problems = []
         rows = 0
-        for stranded in (False, True):
-            def mk(script):
+        is_noexts = t3.get("k") == "ref" and F.ty(t3["t"]).get("k") == "slice" and not (len(elem.get("ts") or []) == 2 and F.ty((elem.get("ts") or [0, ""])[1]).get("k") == "tuple")
+        actives = [(sd, b) for sd in (LEFT, RIGHT) for b in range(4)] if is_noexts else [None]
+        for stranded, active in [(st_, ac_) for st_ in (False, True) for ac_ in actives]:
+            def mk(script, active=active):
                 h = EntryOracles(script, driver["path"])
                 h.n_keys = 1
+                h.active = active
                 return h
 
             def run(h, stranded=stranded):
@@ -1056,9 +1167,9 @@ def entry_points_table(F, rep, rule):
                         items = [Tup([kmer_v("k%d" % i), Tup([exts_sym("e%d" % i), Opaque("D", {"data"}, {"fold": ("d%d" % i,)})])]) for i in range(2)]
                         h.n_keys = 2
                         h.mode = "slice-exts"
-                    else:                                                      # (K, D)
-                        items = [Tup([kmer_v("k0"), Opaque("D", {"data"}, {"fold": ("d0",)})])]
-                        h.n_keys = 1
+                    else:                                                      # (K, D): two keys in the caller's order (their true order is an oracle)
+                        items = [Tup([kmer_v("k%d" % i), Opaque("D", {"data"}, {"fold": ("d%d" % i,)})]) for i in range(2)]
+                        h.n_keys = 2
                         h.mode = "slice-noexts"
                     third = Ref(Cell(Arr(items), "input"))
                 else:
@@ -1069,6 +1180,9 @@ def entry_points_table(F, rep, rule):
                 rows += 1
                 rep.evaluations += 1
                 row = dict(a, stranded=stranded)
+                if active is not None:
+                    row["probe"] = "k0 extended to the %s by base %d" % (dir_name(active[0]), active[1])
+                    row.setdefault("probe-is", a.get("probe", "absent"))
                 if isinstance(out, tuple) and out and out[0] == "inconclusive":
                     rep.inconclusive(rule, key0 + "/row%d" % rows, "%s: %s" % (nm, out[1]))
                     break
@@ -1096,10 +1210,15 @@ def entry_points_table(F, rep, rule):
                     continue
                 keys, exts, data = h.index_new[:3]
                 kn = [kid(k)[0] if kid(k) else None for k in keys.elems] if isinstance(keys, VecV) else None
-                dn = [d.info.get("fold") for d in data.elems] if isinstance(data, VecV) else None
+                dn = [d.info.get("fold") if isinstance(d, Opaque) else None for d in data.elems] if isinstance(data, VecV) else None
                 n = h.n_keys
-                if kn != ["k%d" % i for i in range(n)] or dn != [("d%d" % i,) for i in range(n)]:
-                    problems.append(("keys %s and payloads %s of the built index are not the caller's table in order" % (kn, dn), row))
+                # the index is a map: key i must be stored with ITS payload (and extensions), in whatever order the entries are handed over
+                if kn is None or dn is None or len(kn) != len(dn) or sorted(zip(kn, dn), key=str) != sorted([("k%d" % i, ("d%d" % i,)) for i in range(n)], key=str):
+                    problems.append(("the built index pairs keys %s with payloads %s; every key of the caller's table must be stored once, with its own payload" % (kn, dn), row))
+                    continue
+                if h.unsorted_search is not None:
+                    problems.append(("a binary search is run on the sequence %s, which is not sorted in this row (the caller's list may come in any order; "
+                                     "the result of a binary search on an unsorted slice is unspecified)" % (h.unsorted_search,), row))
                     continue
                 if h.mode == "slice-exts":
                     ok = isinstance(exts, VecV) and len(exts.elems) == n and all(
@@ -1108,21 +1227,25 @@ def entry_points_table(F, rep, rule):
                         problems.append(("the extensions stored with the keys are not the caller's, in lockstep", row))
                 else:
                     # extensions found on the fly: bit (side, base) <=> the neighbour is in the key set; neighbour canonical iff unstranded
-                    e0 = exts.elems[0] if isinstance(exts, VecV) and len(exts.elems) == 1 else None
-                    ev = e0.fields[0] if isinstance(e0, Adt) else None
-                    if not (isinstance(ev, Int) and ev.is_conc()):
-                        problems.append(("the computed extensions are not determined by the membership answers (%r)" % (ev,), row))
+                    bad_e = False
+                    for i_k, kname in enumerate(kn):
+                        e0 = exts.elems[i_k] if isinstance(exts, VecV) and len(exts.elems) == n else None
+                        ev = e0.fields[0] if isinstance(e0, Adt) else None
+                        if not (isinstance(ev, Int) and ev.is_conc()):
+                            rep.inconclusive(rule, key0 + "/row%d" % rows, "%s: the computed extensions of %s could not be evaluated (%r)" % (nm, kname, ev))
+                            bad_e = True
+                            break
+                        want = 0
+                        if kname == "k0" and active is not None and a.get("probe", "absent") != "absent":
+                            want = 1 << (active[1] + (4 if active[0] == RIGHT else 0))
+                        if ev.val != want:
+                            problems.append(("the extension byte computed for %s is %s; its neighbours that are keys give %s" % (kname, bin(ev.val), bin(want)), row))
+                            bad_e = True
+                            break
+                    if bad_e:
                         continue
-                    want = 0
-                    for side in (LEFT, RIGHT):
-                        for b in range(4):
-                            if a.get("has:k0:%s:%s" % (side, b)):
-                                want |= 1 << (b + (4 if side == RIGHT else 0))
-                    if ev.val != want:
-                        problems.append(("the computed extension byte is %s; the neighbours found in the key set give %s" % (bin(ev.val), bin(want)), row))
-                    asked = {(c.get("of"), c.get("side"), c.get("base")) for c in h.contains_asked}
-                    if asked != {("k0", sd, b) for sd in (LEFT, RIGHT) for b in range(4)}:
-                        problems.append(("membership is asked for %s, not for the eight single-base neighbours" % sorted(asked, key=str), row))
+                    # (which membership queries are made, and through which container, is the function's business: the extension bytes above
+                    # are what is decided; the queries that were observed must use the key form of the table)
                     for c in h.contains_asked:
                         if bool(c.get("canon")) != (not stranded):
                             problems.append(("a neighbour is looked up in its %s form in %s mode (keys are %s)" % (
